@@ -257,7 +257,7 @@ fn compare(cfg: &Cfg, metrics_: &[Metric], st: &[MState], descs: &BTreeMap<Strin
 }
 
 const MILD_NAMES: &[&str] = &["a", "b_total", "req.count", "h1", "lat-ms", "x:y", "é", "9lives", "q", "mem used", "hh", "zz.top"];
-const MILD_LK: &[&str] = &["k", "l", "m", "lbl.x", "é", "n1"];
+const MILD_LK: &[&str] = &["k", "l", "m", "lbl.x", "é", "n1", "deploy-env"];
 const MILD_LV: &[&str] = &["", "v", "w x", "\"q\"", "line\nbreak", "é", "{a=\"b\"}"];
 const HOSTILE: &[&str] = &[
     "\\", "\\\\", "\\n", "\n", "\"", "\\\"", "a\\", "\\\n", "\\\nx", "\\\"\n", "x\ny 1\n# TYPE z counter\nz 9", "} 1\nevil{a=\"", "\",evil=\"1", "{}", ",", "=", "#", ":", "1abc", "é\u{0}\u{7f}",
@@ -278,7 +278,7 @@ fn gen_cfg(r: &mut Rng, hostile: bool) -> Cfg {
     }
     let mut global_labels = Vec::new();
     for _ in 0..r.usize(3) {
-        let k = if hostile && r.chance(1, 2) { format!("g{}", r.pick(HOSTILE)) } else { r.pick(&["k", "glob", "l"]).to_string() };
+        let k = if hostile && r.chance(1, 2) { format!("g{}", r.pick(HOSTILE)) } else { r.pick(&["k", "glob", "l", "lbl.x", "deploy-env", "n1"]).to_string() };
         let v = if hostile { r.pick(HOSTILE).to_string() } else { r.pick(MILD_LV).to_string() };
         global_labels.push((k, v));
     }
